@@ -192,7 +192,7 @@ def _refute_monotone(val, order):
             v = teval(val, env)
             v = int(v) if isinstance(v, str) else v
         except (Unknown, Raised, ValueError, TypeError):
-            return None
+            return "unknown"
         same_key = prev is not None and (prev[0][:3], prev[0][3] or 0) == (t[:3], t[3] or 0)
         if prev is not None and not (prev[1] < v) and not (same_key and prev[1] == v):
             return prev[0], t, prev[1], v
@@ -228,6 +228,9 @@ def seqnum_rules(ctx, en, members):
             if all(f is not None for f in fs) and len(fs) >= 3:
                 polys.append(dict(fs))
         wit0 = _refute_monotone(val, order)
+        evaluable = wit0 != "unknown"
+        if wit0 == "unknown":
+            wit0 = None
         if wit0 is not None:
             R.fail("C20-D2 sequence polynomial", f"{key}: not strictly increasing", mod=fi.module, node=stores[key][0].node, function=fq,
                    expected="(major<<24)+(minor<<16)+(patch<<8)[+tweak], strictly increasing in (major, minor, patch, tweak)",
@@ -237,8 +240,14 @@ def seqnum_rules(ctx, en, members):
             # not the recognised normal form: look for a concrete counterexample by evaluating the stored term on ordered tuples
             # (sound as a refutation; without one the analysis cannot stand behind a verdict)
             wit = _refute_monotone(val, order)
-            if wit is None:
+            if wit == "unknown" or (wit is None and not evaluable):
                 raise AnalysisError(f"{fq}: {key} polynomial not recognised in {val!r}"[:300])
+            if wit is None:
+                # evaluated on ~1000 ordered version tuples that cross every byte boundary of every field (254/255/256, 32767/32768,
+                # 65535/65536, with and without the tweak line): strictly increasing on all of them
+                R.ok("C20-D2 sequence polynomial", f"{key}: strictly increasing on the grid of ordered version tuples (form not the recognised polynomial)")
+                R.ok("C20-D2 sequence polynomial", f"{key}: grid")
+                continue
             R.fail("C20-D2 sequence polynomial", f"{key}: not strictly increasing", mod=fi.module, node=stores[key][0].node, function=fq,
                    expected="(major<<24)+(minor<<16)+(patch<<8)[+tweak], strictly increasing in (major, minor, patch, tweak)",
                    found=f"{wit[0]} -> {wit[2]} but {wit[1]} -> {wit[3]}", key_extra=key)
@@ -297,6 +306,37 @@ def seqnum_rules(ctx, en, members):
         R.check("C20-D3 default version labels", not bad_s, f"{key}: every produced string is in the encoder's language", mod=fi.module,
                 node=stores[key][0].node, function=fq, expected="N.N.N[-(alpha|beta|rc)[.N]]", found=f"{extra}={bad_s[0][0]!r} -> {bad_s[0][1]!r}" if bad_s else "",
                 key_extra=key + "table")
+    # what is published for a VERSION section without (all) the fields: every value that the taken path stores is a text the templates
+    # can use - a version string of the encoder's language, a decimal number - never the text of a missing value ('None')
+    from .c11 import _with_guards as _wg
+    R.rule("C20-D3c nothing is published for a missing value", 2, "for a VERSION section lacking the version fields no default version text is stored, sequence numbers stay decimal")
+    published_bad, n_eval = [], 0
+    partials = [{}, {"VERSION_MAJOR": "1"}, {"VERSION_MAJOR": "1", "VERSION_MINOR": "2"}, {"APP_ROOT_SEQ_NUM": "7"}, {"SYSCTRL_VERSION_MAJOR": "3"},
+                {"VERSION_MAJOR": "1", "VERSION_MINOR": "2", "PATCHLEVEL": "3"}]
+    for d_ in partials:
+        for e_, g_ in _wg(outs[0].effects):
+            if not (isinstance(e_, App) and e_.op == "eff:store" and isinstance(e_.args[1], Const) and isinstance(e_.args[1].v, str)
+                    and (e_.args[1].v.endswith("_VERSION") or e_.args[1].v.endswith("_SEQ_NUM"))):
+                continue
+            try:
+                if not all(bool(teval(c_, {ver_t: d_})) == pol_ for c_, pol_ in g_):
+                    continue
+                got = teval(e_.args[2], {ver_t: d_})
+                n_eval += 1
+            except (Unknown, Raised):
+                continue
+            except Exception as ex_:
+                continue
+            k_ = e_.args[1].v
+            ok_ = isinstance(got, str) and (got.isdecimal() if k_.endswith("_SEQ_NUM") else encoder_accepts(got))
+            if not ok_:
+                published_bad.append((k_, d_, got))
+    if n_eval < 4:
+        raise AnalysisError(f"{fq}: published values not evaluable for partial VERSION sections")
+    R.check("C20-D3c nothing is published for a missing value", not published_bad, "partial VERSION sections", mod=fi.module, node=fi.node, function=fq,
+            expected="a value that could not be derived is not published (templates test `is defined`)",
+            found=f"{published_bad[0][0]} = {published_bad[0][2]!r} for VERSION = {published_bad[0][1]}" if published_bad else "")
+    R.ok("C20-D3c nothing is published for a missing value", f"{n_eval} stores evaluated")
     # fallback literal(s) appended after '-'
     for key in ("DEFAULT_VERSION", "SCFW_VERSION"):
         if key not in stores:
